@@ -228,6 +228,8 @@ def main_check(check_name, tier, replay=None):
             merged["inconclusive"].append(f"required monitor counter '{name}' is zero")
     if merged["evaluations"] == 0:
         merged["inconclusive"].append("no case was evaluated")
+    if not merged["samples"]:
+        merged["inconclusive"].append("no sample case was recorded by the check (evidence would be invalid)")
 
     # ---- classify violations against the committed known-findings list ----
     known = load_known(prop)
